@@ -186,7 +186,7 @@ def _run_pathex(ob: Ob, known, rep: Report):
         seen.add(key)
         # replay at most a few counterexamples per violated assertion unless listed findings
         # have to be told apart (then every one is classified)
-        if not known and per_label.get(cex["label"], 0) >= 2:
+        if not known and per_label.get(cex["label"], 0) >= int(os.environ.get('VERIF_MAXV', '2')):
             continue
         per_label[cex["label"]] = per_label.get(cex["label"], 0) + 1
         try:
@@ -345,7 +345,7 @@ def finish(rep: Report, obs, level, assumptions) -> int:
     for fn in os.listdir(rdir):
         if fn.startswith(pid + "-"):
             os.remove(os.path.join(rdir, fn))
-    for n, (ob, cex) in enumerate(rep.violations[:4]):
+    for n, (ob, cex) in enumerate(rep.violations[:int(os.environ.get('VERIF_MAXV', '4'))]):
         path = os.path.join(VERIF, "evidence", "replays", "%s-%d.json" % (pid, n))
         with open(path, "w") as f:
             json.dump({"property": pid, "obligation": ob.name, "engine": ob.engine,
